@@ -147,8 +147,7 @@ func (s *System) Start() error {
 	// 守护系统上下文
 	go func() {
 		<-s.options.Context.Done()
-		s.statusLock.Lock()
-		defer s.statusLock.Unlock()
+		// stop 内部自行获取 statusLock；此处若先持锁再调用会自我死锁，并使后续 Stop 永久阻塞
 		_ = s.stop(false) // 无意义错误
 	}()
 	return nil
